@@ -291,8 +291,8 @@ macro_rules! c14_nested {
             let px = tagged_parent();
             let parent = TypedImageRef::new(PW as u32, PH as u32, &px).unwrap();
             let outer = TypedCroppedImage::from_ref(&parent, 1, 1, 3, 4).unwrap();
-            let view = TypedCroppedImage::from_ref(&outer, 1, 1, 2, 2).unwrap();
-            $fn(&view, 2, 2, 2, 2, $parts);
+            let view = TypedCroppedImage::from_ref(&outer, 0, 1, 2, 2).unwrap();
+            $fn(&view, 1, 2, 2, 2, $parts);
         }
     };
 }
@@ -326,33 +326,33 @@ macro_rules! c14_mut {
     };
 }
 
-// @h c14_h_cropped_interior_p1 | prop=C14 | tier=quick | t=1800 | mem=12 | flags=--no-assertion-reach-checks --no-memory-safety-checks --no-overflow-checks | enc=TypedCroppedImage::split_by_height (offset composition) -> TypedImageRef::split_by_height | bounds=symbolic: start 0..=6, size 1..=6; enumerated: parts=1, TypedCroppedImage 2x3 at (1,1) of a 4x5 TypedImageRef; unwind 8
-c14_cropped!(c14_h_cropped_interior_p1, check_split_by_height, 1, (1, 1, 2, 3));
-// @h c14_w_cropped_interior_p1 | prop=C14 | tier=quick | t=1800 | mem=12 | flags=--no-assertion-reach-checks --no-memory-safety-checks --no-overflow-checks | enc=TypedCroppedImage::split_by_width (offset composition) -> ImageView::split_by_width default | bounds=symbolic: start 0..=5, size 1..=5; enumerated: parts=1, TypedCroppedImage 2x3 at (1,1) of a 4x5 TypedImageRef; unwind 8
-c14_cropped!(c14_w_cropped_interior_p1, check_split_by_width, 1, (1, 1, 2, 3));
-// @h c14_h_cropped_interior_p2 | prop=C14 | tier=quick | t=1800 | mem=12 | flags=--no-assertion-reach-checks --no-memory-safety-checks --no-overflow-checks | enc=TypedCroppedImage::split_by_height (offset composition) -> TypedImageRef::split_by_height | bounds=symbolic: start 0..=6, size 1..=6; enumerated: parts=2, TypedCroppedImage 2x3 at (1,1) of a 4x5 TypedImageRef; unwind 8
-c14_cropped!(c14_h_cropped_interior_p2, check_split_by_height, 2, (1, 1, 2, 3));
-// @h c14_w_cropped_interior_p2 | prop=C14 | tier=quick | t=1800 | mem=12 | flags=--no-assertion-reach-checks --no-memory-safety-checks --no-overflow-checks | enc=TypedCroppedImage::split_by_width (offset composition) -> ImageView::split_by_width default | bounds=symbolic: start 0..=5, size 1..=5; enumerated: parts=2, TypedCroppedImage 2x3 at (1,1) of a 4x5 TypedImageRef; unwind 8
-c14_cropped!(c14_w_cropped_interior_p2, check_split_by_width, 2, (1, 1, 2, 3));
-// @h c14_h_cropped_interior_p3 | prop=C14 | tier=thorough | t=1800 | mem=12 | flags=--no-assertion-reach-checks --no-memory-safety-checks --no-overflow-checks | enc=TypedCroppedImage::split_by_height (offset composition) -> TypedImageRef::split_by_height | bounds=symbolic: start 0..=6, size 1..=6; enumerated: parts=3, TypedCroppedImage 2x3 at (1,1) of a 4x5 TypedImageRef; unwind 8
-c14_cropped!(c14_h_cropped_interior_p3, check_split_by_height, 3, (1, 1, 2, 3));
-// @h c14_w_cropped_interior_p3 | prop=C14 | tier=thorough | t=1800 | mem=12 | flags=--no-assertion-reach-checks --no-memory-safety-checks --no-overflow-checks | enc=TypedCroppedImage::split_by_width (offset composition) -> ImageView::split_by_width default | bounds=symbolic: start 0..=5, size 1..=5; enumerated: parts=3, TypedCroppedImage 2x3 at (1,1) of a 4x5 TypedImageRef; unwind 8
-c14_cropped!(c14_w_cropped_interior_p3, check_split_by_width, 3, (1, 1, 2, 3));
-// @h c14_h_cropped_interior_p4 | prop=C14 | tier=thorough | t=1800 | mem=12 | flags=--no-assertion-reach-checks --no-memory-safety-checks --no-overflow-checks | enc=TypedCroppedImage::split_by_height (offset composition) -> TypedImageRef::split_by_height | bounds=symbolic: start 0..=6, size 1..=6; enumerated: parts=4, TypedCroppedImage 2x3 at (1,1) of a 4x5 TypedImageRef; unwind 8
-c14_cropped!(c14_h_cropped_interior_p4, check_split_by_height, 4, (1, 1, 2, 3));
-// @h c14_w_cropped_interior_p4 | prop=C14 | tier=thorough | t=1800 | mem=12 | flags=--no-assertion-reach-checks --no-memory-safety-checks --no-overflow-checks | enc=TypedCroppedImage::split_by_width (offset composition) -> ImageView::split_by_width default | bounds=symbolic: start 0..=5, size 1..=5; enumerated: parts=4, TypedCroppedImage 2x3 at (1,1) of a 4x5 TypedImageRef; unwind 8
-c14_cropped!(c14_w_cropped_interior_p4, check_split_by_width, 4, (1, 1, 2, 3));
+// @h c14_h_cropped_interior_p1 | prop=C14 | tier=quick | t=1800 | mem=12 | flags=--no-assertion-reach-checks --no-memory-safety-checks --no-overflow-checks | enc=TypedCroppedImage::split_by_height (offset composition) -> TypedImageRef::split_by_height | bounds=symbolic: start 0..=6, size 1..=6; enumerated: parts=1, TypedCroppedImage 2x3 at (1,2) of a 4x5 TypedImageRef; unwind 8
+c14_cropped!(c14_h_cropped_interior_p1, check_split_by_height, 1, (1, 2, 2, 3));
+// @h c14_w_cropped_interior_p1 | prop=C14 | tier=quick | t=1800 | mem=12 | flags=--no-assertion-reach-checks --no-memory-safety-checks --no-overflow-checks | enc=TypedCroppedImage::split_by_width (offset composition) -> ImageView::split_by_width default | bounds=symbolic: start 0..=5, size 1..=5; enumerated: parts=1, TypedCroppedImage 2x3 at (1,2) of a 4x5 TypedImageRef; unwind 8
+c14_cropped!(c14_w_cropped_interior_p1, check_split_by_width, 1, (1, 2, 2, 3));
+// @h c14_h_cropped_interior_p2 | prop=C14 | tier=quick | t=1800 | mem=12 | flags=--no-assertion-reach-checks --no-memory-safety-checks --no-overflow-checks | enc=TypedCroppedImage::split_by_height (offset composition) -> TypedImageRef::split_by_height | bounds=symbolic: start 0..=6, size 1..=6; enumerated: parts=2, TypedCroppedImage 2x3 at (1,2) of a 4x5 TypedImageRef; unwind 8
+c14_cropped!(c14_h_cropped_interior_p2, check_split_by_height, 2, (1, 2, 2, 3));
+// @h c14_w_cropped_interior_p2 | prop=C14 | tier=quick | t=1800 | mem=12 | flags=--no-assertion-reach-checks --no-memory-safety-checks --no-overflow-checks | enc=TypedCroppedImage::split_by_width (offset composition) -> ImageView::split_by_width default | bounds=symbolic: start 0..=5, size 1..=5; enumerated: parts=2, TypedCroppedImage 2x3 at (1,2) of a 4x5 TypedImageRef; unwind 8
+c14_cropped!(c14_w_cropped_interior_p2, check_split_by_width, 2, (1, 2, 2, 3));
+// @h c14_h_cropped_interior_p3 | prop=C14 | tier=thorough | t=1800 | mem=12 | flags=--no-assertion-reach-checks --no-memory-safety-checks --no-overflow-checks | enc=TypedCroppedImage::split_by_height (offset composition) -> TypedImageRef::split_by_height | bounds=symbolic: start 0..=6, size 1..=6; enumerated: parts=3, TypedCroppedImage 2x3 at (1,2) of a 4x5 TypedImageRef; unwind 8
+c14_cropped!(c14_h_cropped_interior_p3, check_split_by_height, 3, (1, 2, 2, 3));
+// @h c14_w_cropped_interior_p3 | prop=C14 | tier=thorough | t=1800 | mem=12 | flags=--no-assertion-reach-checks --no-memory-safety-checks --no-overflow-checks | enc=TypedCroppedImage::split_by_width (offset composition) -> ImageView::split_by_width default | bounds=symbolic: start 0..=5, size 1..=5; enumerated: parts=3, TypedCroppedImage 2x3 at (1,2) of a 4x5 TypedImageRef; unwind 8
+c14_cropped!(c14_w_cropped_interior_p3, check_split_by_width, 3, (1, 2, 2, 3));
+// @h c14_h_cropped_interior_p4 | prop=C14 | tier=thorough | t=1800 | mem=12 | flags=--no-assertion-reach-checks --no-memory-safety-checks --no-overflow-checks | enc=TypedCroppedImage::split_by_height (offset composition) -> TypedImageRef::split_by_height | bounds=symbolic: start 0..=6, size 1..=6; enumerated: parts=4, TypedCroppedImage 2x3 at (1,2) of a 4x5 TypedImageRef; unwind 8
+c14_cropped!(c14_h_cropped_interior_p4, check_split_by_height, 4, (1, 2, 2, 3));
+// @h c14_w_cropped_interior_p4 | prop=C14 | tier=thorough | t=1800 | mem=12 | flags=--no-assertion-reach-checks --no-memory-safety-checks --no-overflow-checks | enc=TypedCroppedImage::split_by_width (offset composition) -> ImageView::split_by_width default | bounds=symbolic: start 0..=5, size 1..=5; enumerated: parts=4, TypedCroppedImage 2x3 at (1,2) of a 4x5 TypedImageRef; unwind 8
+c14_cropped!(c14_w_cropped_interior_p4, check_split_by_width, 4, (1, 2, 2, 3));
 // @h c14_h_cropped_flush_p1 | prop=C14 | tier=thorough | t=1800 | mem=12 | flags=--no-assertion-reach-checks --no-memory-safety-checks --no-overflow-checks | enc=TypedCroppedImage::split_by_height | bounds=symbolic: start, size; enumerated: parts=1, TypedCroppedImage 2x2 flush bottom-right (2,3) of a 4x5 parent; unwind 8
 c14_cropped!(c14_h_cropped_flush_p1, check_split_by_height, 1, (2, 3, 2, 2));
-// @h c14_h_nested_p1 | prop=C14 | tier=thorough | t=1800 | mem=12 | flags=--no-assertion-reach-checks --no-memory-safety-checks --no-overflow-checks | enc=TypedCroppedImage<TypedCroppedImage<..>>::split_by_height | bounds=symbolic: start, size; enumerated: parts=1, 2x2 view at (1,1) of a 3x4 view at (1,1) of the 4x5 parent; unwind 8
+// @h c14_h_nested_p1 | prop=C14 | tier=thorough | t=1800 | mem=12 | flags=--no-assertion-reach-checks --no-memory-safety-checks --no-overflow-checks | enc=TypedCroppedImage<TypedCroppedImage<..>>::split_by_height | bounds=symbolic: start, size; enumerated: parts=1, 2x2 view at (0,1) of a 3x4 view at (1,1) of the 4x5 parent; unwind 8
 c14_nested!(c14_h_nested_p1, check_split_by_height, 1);
 // @h c14_h_cropped_flush_p2 | prop=C14 | tier=thorough | t=1800 | mem=12 | flags=--no-assertion-reach-checks --no-memory-safety-checks --no-overflow-checks | enc=TypedCroppedImage::split_by_height | bounds=symbolic: start, size; enumerated: parts=2, TypedCroppedImage 2x2 flush bottom-right (2,3) of a 4x5 parent; unwind 8
 c14_cropped!(c14_h_cropped_flush_p2, check_split_by_height, 2, (2, 3, 2, 2));
-// @h c14_h_nested_p2 | prop=C14 | tier=thorough | t=1800 | mem=12 | flags=--no-assertion-reach-checks --no-memory-safety-checks --no-overflow-checks | enc=TypedCroppedImage<TypedCroppedImage<..>>::split_by_height | bounds=symbolic: start, size; enumerated: parts=2, 2x2 view at (1,1) of a 3x4 view at (1,1) of the 4x5 parent; unwind 8
+// @h c14_h_nested_p2 | prop=C14 | tier=thorough | t=1800 | mem=12 | flags=--no-assertion-reach-checks --no-memory-safety-checks --no-overflow-checks | enc=TypedCroppedImage<TypedCroppedImage<..>>::split_by_height | bounds=symbolic: start, size; enumerated: parts=2, 2x2 view at (0,1) of a 3x4 view at (1,1) of the 4x5 parent; unwind 8
 c14_nested!(c14_h_nested_p2, check_split_by_height, 2);
 // @h c14_h_cropped_flush_p3 | prop=C14 | tier=thorough | t=1800 | mem=12 | flags=--no-assertion-reach-checks --no-memory-safety-checks --no-overflow-checks | enc=TypedCroppedImage::split_by_height | bounds=symbolic: start, size; enumerated: parts=3, TypedCroppedImage 2x2 flush bottom-right (2,3) of a 4x5 parent; unwind 8
 c14_cropped!(c14_h_cropped_flush_p3, check_split_by_height, 3, (2, 3, 2, 2));
-// @h c14_h_nested_p3 | prop=C14 | tier=thorough | t=1800 | mem=12 | flags=--no-assertion-reach-checks --no-memory-safety-checks --no-overflow-checks | enc=TypedCroppedImage<TypedCroppedImage<..>>::split_by_height | bounds=symbolic: start, size; enumerated: parts=3, 2x2 view at (1,1) of a 3x4 view at (1,1) of the 4x5 parent; unwind 8
+// @h c14_h_nested_p3 | prop=C14 | tier=thorough | t=1800 | mem=12 | flags=--no-assertion-reach-checks --no-memory-safety-checks --no-overflow-checks | enc=TypedCroppedImage<TypedCroppedImage<..>>::split_by_height | bounds=symbolic: start, size; enumerated: parts=3, 2x2 view at (0,1) of a 3x4 view at (1,1) of the 4x5 parent; unwind 8
 c14_nested!(c14_h_nested_p3, check_split_by_height, 3);
 // @h c14_hmut_typed_image_p2 | prop=C14 | tier=quick | t=1800 | mem=12 | flags=--no-assertion-reach-checks --no-memory-safety-checks --no-overflow-checks | enc=TypedImage::split_by_height_mut (split_at_mut specialisation), TypedImage::iter_rows_mut | bounds=symbolic: start 0..=8, size 1..=8; enumerated: parts=2, TypedImage 4x5; write-through check on the parent buffer; unwind 8
 c14_mut!(c14_hmut_typed_image_p2, check_split_by_height_mut, true, 2, whole);
@@ -374,15 +374,15 @@ c14_mut!(c14_wmut_typed_image_p4, check_split_by_width_mut, false, 4, whole);
 c14_mut!(c14_hmut_typed_image_p6, check_split_by_height_mut, true, 6, whole);
 // @h c14_wmut_typed_image_p6 | prop=C14 | tier=thorough | t=1800 | mem=12 | flags=--no-assertion-reach-checks --no-memory-safety-checks --no-overflow-checks | enc=ImageViewMut::split_by_width_mut default (UnsafeImageMut + TypedCroppedImageMut) | bounds=symbolic: start 0..=7, size 1..=7; enumerated: parts=6, TypedImage 4x5; write-through check on the parent buffer; unwind 8
 c14_mut!(c14_wmut_typed_image_p6, check_split_by_width_mut, false, 6, whole);
-// @h c14_hmut_cropped_interior_p1 | prop=C14 | tier=quick | t=1800 | mem=12 | flags=--no-assertion-reach-checks --no-memory-safety-checks --no-overflow-checks | enc=TypedCroppedImageMut::split_by_height_mut -> TypedImage::split_by_height_mut | bounds=symbolic: start 0..=6, size 1..=6; enumerated: parts=1, TypedCroppedImageMut 2x3 at (1,1) of a 4x5 TypedImage; write-through check; unwind 8
-c14_mut!(c14_hmut_cropped_interior_p1, check_split_by_height_mut, true, 1, (1, 1, 2, 3));
-// @h c14_wmut_cropped_interior_p1 | prop=C14 | tier=quick | t=1800 | mem=12 | flags=--no-assertion-reach-checks --no-memory-safety-checks --no-overflow-checks | enc=TypedCroppedImageMut::split_by_width_mut -> ImageViewMut::split_by_width_mut default | bounds=symbolic: start 0..=5, size 1..=5; enumerated: parts=1, TypedCroppedImageMut 2x3 at (1,1) of a 4x5 TypedImage; write-through check; unwind 8
-c14_mut!(c14_wmut_cropped_interior_p1, check_split_by_width_mut, false, 1, (1, 1, 2, 3));
-// @h c14_hmut_cropped_interior_p2 | prop=C14 | tier=quick | t=1800 | mem=12 | flags=--no-assertion-reach-checks --no-memory-safety-checks --no-overflow-checks | enc=TypedCroppedImageMut::split_by_height_mut -> TypedImage::split_by_height_mut | bounds=symbolic: start 0..=6, size 1..=6; enumerated: parts=2, TypedCroppedImageMut 2x3 at (1,1) of a 4x5 TypedImage; write-through check; unwind 8
-c14_mut!(c14_hmut_cropped_interior_p2, check_split_by_height_mut, true, 2, (1, 1, 2, 3));
-// @h c14_wmut_cropped_interior_p2 | prop=C14 | tier=quick | t=1800 | mem=12 | flags=--no-assertion-reach-checks --no-memory-safety-checks --no-overflow-checks | enc=TypedCroppedImageMut::split_by_width_mut -> ImageViewMut::split_by_width_mut default | bounds=symbolic: start 0..=5, size 1..=5; enumerated: parts=2, TypedCroppedImageMut 2x3 at (1,1) of a 4x5 TypedImage; write-through check; unwind 8
-c14_mut!(c14_wmut_cropped_interior_p2, check_split_by_width_mut, false, 2, (1, 1, 2, 3));
-// @h c14_hmut_cropped_interior_p3 | prop=C14 | tier=thorough | t=1800 | mem=12 | flags=--no-assertion-reach-checks --no-memory-safety-checks --no-overflow-checks | enc=TypedCroppedImageMut::split_by_height_mut -> TypedImage::split_by_height_mut | bounds=symbolic: start 0..=6, size 1..=6; enumerated: parts=3, TypedCroppedImageMut 2x3 at (1,1) of a 4x5 TypedImage; write-through check; unwind 8
-c14_mut!(c14_hmut_cropped_interior_p3, check_split_by_height_mut, true, 3, (1, 1, 2, 3));
-// @h c14_wmut_cropped_interior_p3 | prop=C14 | tier=thorough | t=1800 | mem=12 | flags=--no-assertion-reach-checks --no-memory-safety-checks --no-overflow-checks | enc=TypedCroppedImageMut::split_by_width_mut -> ImageViewMut::split_by_width_mut default | bounds=symbolic: start 0..=5, size 1..=5; enumerated: parts=3, TypedCroppedImageMut 2x3 at (1,1) of a 4x5 TypedImage; write-through check; unwind 8
-c14_mut!(c14_wmut_cropped_interior_p3, check_split_by_width_mut, false, 3, (1, 1, 2, 3));
+// @h c14_hmut_cropped_interior_p1 | prop=C14 | tier=quick | t=1800 | mem=12 | flags=--no-assertion-reach-checks --no-memory-safety-checks --no-overflow-checks | enc=TypedCroppedImageMut::split_by_height_mut -> TypedImage::split_by_height_mut | bounds=symbolic: start 0..=6, size 1..=6; enumerated: parts=1, TypedCroppedImageMut 2x3 at (1,2) of a 4x5 TypedImage; write-through check; unwind 8
+c14_mut!(c14_hmut_cropped_interior_p1, check_split_by_height_mut, true, 1, (1, 2, 2, 3));
+// @h c14_wmut_cropped_interior_p1 | prop=C14 | tier=quick | t=1800 | mem=12 | flags=--no-assertion-reach-checks --no-memory-safety-checks --no-overflow-checks | enc=TypedCroppedImageMut::split_by_width_mut -> ImageViewMut::split_by_width_mut default | bounds=symbolic: start 0..=5, size 1..=5; enumerated: parts=1, TypedCroppedImageMut 2x3 at (1,2) of a 4x5 TypedImage; write-through check; unwind 8
+c14_mut!(c14_wmut_cropped_interior_p1, check_split_by_width_mut, false, 1, (1, 2, 2, 3));
+// @h c14_hmut_cropped_interior_p2 | prop=C14 | tier=quick | t=1800 | mem=12 | flags=--no-assertion-reach-checks --no-memory-safety-checks --no-overflow-checks | enc=TypedCroppedImageMut::split_by_height_mut -> TypedImage::split_by_height_mut | bounds=symbolic: start 0..=6, size 1..=6; enumerated: parts=2, TypedCroppedImageMut 2x3 at (1,2) of a 4x5 TypedImage; write-through check; unwind 8
+c14_mut!(c14_hmut_cropped_interior_p2, check_split_by_height_mut, true, 2, (1, 2, 2, 3));
+// @h c14_wmut_cropped_interior_p2 | prop=C14 | tier=quick | t=1800 | mem=12 | flags=--no-assertion-reach-checks --no-memory-safety-checks --no-overflow-checks | enc=TypedCroppedImageMut::split_by_width_mut -> ImageViewMut::split_by_width_mut default | bounds=symbolic: start 0..=5, size 1..=5; enumerated: parts=2, TypedCroppedImageMut 2x3 at (1,2) of a 4x5 TypedImage; write-through check; unwind 8
+c14_mut!(c14_wmut_cropped_interior_p2, check_split_by_width_mut, false, 2, (1, 2, 2, 3));
+// @h c14_hmut_cropped_interior_p3 | prop=C14 | tier=thorough | t=1800 | mem=12 | flags=--no-assertion-reach-checks --no-memory-safety-checks --no-overflow-checks | enc=TypedCroppedImageMut::split_by_height_mut -> TypedImage::split_by_height_mut | bounds=symbolic: start 0..=6, size 1..=6; enumerated: parts=3, TypedCroppedImageMut 2x3 at (1,2) of a 4x5 TypedImage; write-through check; unwind 8
+c14_mut!(c14_hmut_cropped_interior_p3, check_split_by_height_mut, true, 3, (1, 2, 2, 3));
+// @h c14_wmut_cropped_interior_p3 | prop=C14 | tier=thorough | t=1800 | mem=12 | flags=--no-assertion-reach-checks --no-memory-safety-checks --no-overflow-checks | enc=TypedCroppedImageMut::split_by_width_mut -> ImageViewMut::split_by_width_mut default | bounds=symbolic: start 0..=5, size 1..=5; enumerated: parts=3, TypedCroppedImageMut 2x3 at (1,2) of a 4x5 TypedImage; write-through check; unwind 8
+c14_mut!(c14_wmut_cropped_interior_p3, check_split_by_width_mut, false, 3, (1, 2, 2, 3));
